@@ -30,6 +30,8 @@ pub struct Obs {
     ev: &'static Evidence,
     rng: SplitMix,
     pub injections: u64,
+    /// detached commits built by discarded clones: (member, epoch, CommitSecrets)
+    stale: Vec<(usize, u64, Vec<u8>)>,
 }
 
 /// Error classes produced before any authentication happens.
@@ -131,8 +133,20 @@ impl Obs {
         let before = snap(w, m)?;
         let t = w.now();
         let leaf = w.parties[m].leaf();
+        // a correctly signed key package whose init key cannot be sealed to (X25519: the all-zero point passes the
+        // public-key check and fails in HPKE; other suites: one byte short): the build fails late, while the Welcome is made
+        let unusable_kp = if which % 7 == 6 {
+            let np = w.new_party();
+            crate::forge::key_package_with_init_key(w, np, |k| if k.len() == 32 { vec![0u8; 32] } else { k[..k.len() - 1].to_vec() }).and_then(|b| MlsMessage::from_bytes(&b).ok())
+        } else {
+            None
+        };
         let party = &mut w.parties[m];
-        let (what, r): (&str, Result<(), OpErr>) = match which % 6 {
+        let (what, r): (&str, Result<(), OpErr>) = match which % 7 {
+            6 => match unusable_kp {
+                Some(kp) => ("commit_adding_key_package_with_unusable_init_key", guard(|| party.gm().commit_builder().add_member(kp)?.commit_time(t).build().map(|_| ()))),
+                None => return Ok(()),
+            },
             0 => ("commit_removing_self", guard(|| party.gm().commit_builder().remove_member(leaf)?.commit_time(t).build().map(|_| ()))),
             1 => (
                 "commit_with_unknown_psk",
@@ -196,7 +210,40 @@ impl Observer for Obs {
         let m = members[pick(op[1], members.len())];
         let others: Vec<usize> = members.iter().copied().filter(|x| *x != m).collect();
         let s = others[pick(op[3], others.len())];
-        match pick(op[2], 11) {
+        match pick(op[2], 13) {
+            11 | 12 => {
+                // failed operation: applying the secrets of a detached commit of an older epoch (built by a discarded clone)
+                let cand = self.stale.iter().position(|(p, e, _)| members.contains(p) && *e < w.parties[*p].g().current_epoch() && !w.parties[*p].g().has_pending_commit());
+                if let Some(ix) = cand {
+                    let (m, e, sec) = self.stale.remove(ix);
+                    let now = w.parties[m].g().current_epoch();
+                    let before = snap(w, m)?;
+                    let party = &mut w.parties[m];
+                    match guard(|| party.gm().apply_detached_commit(mls_rs::group::CommitSecrets::from_bytes(&sec)?).map(|_| ())) {
+                        Ok(()) => return Err(Failure::new(format!("{P}|stale_detached_commit_applied"), format!("party {m} in epoch {now} applied the secrets of a detached commit built in epoch {e}"))),
+                        Err(e) if e.is_panic() => return Err(panic_failure(P, "apply_detached_commit", &e)),
+                        Err(err) => {
+                            let after = snap(w, m)?;
+                            let d = before.diff(&after);
+                            if !d.is_empty() {
+                                let sig = format!("{P}|failed_build_changed_state|apply_stale_detached_commit|diff={}", diff_components(&d));
+                                return self.ev.known_or_fail(&sig, || format!("party {m}: apply_detached_commit (built in epoch {e}, now {now}) failed with {} but changed the state: {d:?}", err.class()));
+                            }
+                            self.ev.class(&format!("failed_build:apply_stale_detached_commit:{}", err.class()));
+                            self.ev.nontrivial(&("stale_detached", m, e, now));
+                        }
+                    }
+                }
+                // ... and a new detached commit by a discarded clone of m: its secrets are stale as soon as the group moves on
+                let mut clone = w.parties[m].g().clone();
+                let t = w.now();
+                if let Ok((_, secrets)) = guard(|| clone.commit_builder().commit_time(t).build_detached()) {
+                    if let Ok(b) = secrets.to_bytes() {
+                        self.stale.retain(|(p, _, _)| *p != m);
+                        self.stale.push((m, w.parties[m].g().current_epoch(), b));
+                    }
+                }
+            }
             10 => {
                 // a genuine application message far beyond the receiver's look-ahead window (made by a discarded clone of the
                 // sender, so the sender's real ratchet stays where it is): rejected, and nothing may have moved
@@ -431,7 +478,7 @@ pub fn run(ctx: &Ctx) -> ! {
          distinct by (injection kind, field, error class, state flags, member, epoch).",
         &hp,
         spec,
-        &|case, ev| Obs { ev, rng: SplitMix::new(((case.c(7) as u64) << 16) | case.c(8) as u64, 4), injections: 0 },
+        &|case, ev| Obs { ev, rng: SplitMix::new(((case.c(7) as u64) << 16) | case.c(8) as u64, 4), injections: 0, stale: vec![] },
         &|_, o| {
             o.ev.class_n("injections", o.injections);
             false
